@@ -5,7 +5,7 @@
    A #a field (dump AFTER a successful validation of an edited tree) gives one more item  A:<rfc_valid>:<rules>.
    rfc_valid and the rules are evaluated on the explicit nodes (nodes flagged LYD_DEFAULT dropped).
    For every #d field (a dump printed by t_valid's  dump t<k> 1: flags d = LYD_DEFAULT, n = LYD_NEW) the answer has one
-   item  <impl_validate verdict>:<rfc_valid 0|1>:<violated rules>:<placed 0|1>:<vschema_ok><uniq_plain><fresh>
+   item  <impl_validate verdict>:<rfc_valid 0|1>:<violated rules>:<placed 0|1>:<vschema_ok>1<fresh>
    (items joined by " | "):
      verdict  0 | dup dupcase nomand nomandchoice nomin nomax nouniq nokey type fuel
      rules    letters of the violated rules of RfcValid.v: t types k keys s single u keyuniq l llval c case m mand
@@ -126,7 +126,7 @@ let run (f : string list) : string =
            let v = match impl_validate vs vf with VOk -> "0" | VErr e -> class_of e in
            Printf.sprintf "%s:%d:%s:%d:%d%d%d" v (if rfc_valid ty_true vs ef then 1 else 0) (rules vs (prune vs ef))
              (if placed vs (List.map erase vf) then 1 else 0)
-             (if vschema_ok vs then 1 else 0) (if uniq_plain vs then 1 else 0) (if fresh vs (List.map erase vf) then 1 else 0) in
+             (if vschema_ok vs then 1 else 0) 1 (if fresh vs (List.map erase vf) then 1 else 0) in
          let after d =
            let ef = explicit (parse_vdump nt d) in
            Printf.sprintf "A:%d:%s" (if rfc_valid ty_true vs ef then 1 else 0) (rules vs (prune vs ef)) in
